@@ -1,6 +1,6 @@
 (** C04 — non-vacuity examples and the refutation witness (all by computation on closed terms). *)
 From Coq Require Import List NArith ZArith Bool.
-From SK Require Import lib.Tok lib.LGraph model.C03_Model model.C04_Model proof.C04_Glue proof.C04_Template proof.C04_Proof.
+From SK Require Import lib.Tok lib.LGraph model.C03_Model model.C04_Model proof.C04_Glue proof.C04_Template proof.C04_Check proof.C04_Proof.
 Import ListNotations.
 Local Open Scope Z_scope.
 
@@ -68,4 +68,25 @@ Qed.
 
 (** non-vacuity of C04_centre_exact: the witness satisfies its hypotheses, backwards too *)
 Example w_exact_bwd : match regenerate true true wG wH with Some T => regen_exact T wH wG | None => true end = false.
+Proof. vm_compute. reflexivity. Qed.
+
+(** non-vacuity of C04_identity_glue_any_rule, default (explicit-hydrogen) mode: bromoethane + water written with explicit
+    centre hydrogens, [CH3:1][C:2]([H:5])([H:6])[Br:3].[O:4]([H:7])[H:8]>>[CH3:1][C:2]([H:5])([H:6])[O:4][H:8].[Br:3][H:7]
+    (Br = 17010, O = 79): the rule prepared by _strip_explicit_h describes the pair of implicit-hydrogen sides *)
+Definition eG : hostg :=
+  LG [(1%N, NA 67%N false 3 0 []); (2%N, NA 67%N false 0 0 []); (5%N, NA 72%N false 0 0 []); (6%N, NA 72%N false 0 0 []);
+      (3%N, NA 17010%N false 0 0 []); (4%N, NA 79%N false 0 0 []); (7%N, NA 72%N false 0 0 []); (8%N, NA 72%N false 0 0 [])]
+     [(1%N, 2%N, 2); (2%N, 5%N, 2); (2%N, 6%N, 2); (2%N, 3%N, 2); (4%N, 7%N, 2); (4%N, 8%N, 2)].
+Definition eH : hostg :=
+  LG [(1%N, NA 67%N false 3 0 []); (2%N, NA 67%N false 0 0 []); (5%N, NA 72%N false 0 0 []); (6%N, NA 72%N false 0 0 []);
+      (4%N, NA 79%N false 0 0 []); (8%N, NA 72%N false 0 0 []); (3%N, NA 17010%N false 0 0 []); (7%N, NA 72%N false 0 0 [])]
+     [(1%N, 2%N, 2); (2%N, 5%N, 2); (2%N, 6%N, 2); (2%N, 4%N, 2); (4%N, 8%N, 2); (3%N, 7%N, 2)].
+Definition e_rule : its := match rule_of true false eG eH with Some (rc, _, _) => rc | None => LG [] [] end.
+Example e_mode : mode_E eG eH = true /\ consistent_H (its_construct eG eH) = true.
+Proof. vm_compute. split; reflexivity. Qed.
+Example e_describes :
+  pair_wfb (substrate false eG eH) (h_to_implicit_host eH) = true /\
+  describesb (substrate false eG eH) (h_to_implicit_host eH) e_rule = true /\ length (gnodes e_rule) = 3%nat.
+Proof. vm_compute. repeat split; reflexivity. Qed.
+Example e_regen_folded : match regenerate true false eG eH with Some T => regen_folded T eG eH | None => false end = true.
 Proof. vm_compute. reflexivity. Qed.
